@@ -1,6 +1,8 @@
 // x_nondet regenerates lean/Irismod/Gen/Nondet.lean (C11): every site in the state-machine
 // code of /repo/modules (non-test, non-client, non-simulation, non-generated) that reads the host
-// clock, an unseeded/OS random source, the environment, ranges over a Go map, or does
+// clock, an unseeded/OS random source, the environment (os, runtime, unsafe), ranges over a Go map (or
+// takes maps.Keys / reflect map iteration), sorts unstably (sort.Slice / sort.Sort), uses a sync primitive,
+// starts a goroutine / selects, writes a package-level variable from a function, or does
 // floating-point math. Sites are keyed by (file, enclosing function, kind, callee) — no line
 // numbers, so harmless edits do not change the table.
 package main
@@ -138,13 +140,44 @@ func scanNode(p *packages.Package, n ast.Node, rel, fn string, counts map[site]i
 						counts[site{rel, fn, "clock", callee}]++
 					case path == "math/rand" || path == "crypto/rand" || path == "math/rand/v2":
 						counts[site{rel, fn, "random", callee}]++
-					case path == "os" && (e.Sel.Name == "Getenv" || e.Sel.Name == "LookupEnv" || e.Sel.Name == "Hostname" || e.Sel.Name == "Getpid"):
+					case path == "os" && (e.Sel.Name == "Getenv" || e.Sel.Name == "LookupEnv" || e.Sel.Name == "Hostname" || e.Sel.Name == "Getpid" ||
+						e.Sel.Name == "Environ" || e.Sel.Name == "Args" || e.Sel.Name == "ReadFile" || e.Sel.Name == "Getwd" || e.Sel.Name == "Open"):
 						counts[site{rel, fn, "env", callee}]++
+					case path == "runtime" || path == "unsafe":
+						counts[site{rel, fn, "env", callee}]++
+					case path == "sync" || path == "sync/atomic":
+						// process-local synchronisation / memoisation primitives (Once, Pool, Map, Mutex, atomic counters)
+						counts[site{rel, fn, "sync", callee}]++
+					case (path == "maps" || path == "golang.org/x/exp/maps") && (e.Sel.Name == "Keys" || e.Sel.Name == "Values" || e.Sel.Name == "All"):
+						counts[site{rel, fn, "map-range", callee}]++
+					case path == "reflect" && (e.Sel.Name == "MapKeys" || e.Sel.Name == "MapRange"):
+						counts[site{rel, fn, "map-range", callee}]++
+					case path == "sort" && (e.Sel.Name == "Slice" || e.Sel.Name == "Sort"):
+						// unstable: elements with equal keys come out in an unspecified order
+						counts[site{rel, fn, "unstable-sort", callee}]++
 					case path == "math" && isFloatFn(p, e):
 						counts[site{rel, fn, "float", callee}]++
 					case path == "strconv" && (e.Sel.Name == "ParseFloat" || e.Sel.Name == "FormatFloat"):
 						counts[site{rel, fn, "float", callee}]++
 					}
+				}
+			}
+		case *ast.GoStmt:
+			counts[site{rel, fn, "goroutine", "go"}]++
+		case *ast.SelectStmt:
+			counts[site{rel, fn, "goroutine", "select"}]++
+		case *ast.AssignStmt:
+			if fn != "<package-init>" {
+				for _, l := range e.Lhs {
+					if v := pkgVarRoot(p, l); v != "" {
+						counts[site{rel, fn, "package-var-write", v}]++
+					}
+				}
+			}
+		case *ast.IncDecStmt:
+			if fn != "<package-init>" {
+				if v := pkgVarRoot(p, e.X); v != "" {
+					counts[site{rel, fn, "package-var-write", v}]++
 				}
 			}
 		case *ast.RangeStmt:
@@ -156,6 +189,46 @@ func scanNode(p *packages.Package, n ast.Node, rel, fn string, counts map[site]i
 		}
 		return true
 	})
+}
+
+// pkgVarRoot returns the name of the package-level variable that the assignable expression e is
+// rooted in (x, x.f, x[i], *x ...), or "" — mutable process-global state written from a function.
+func pkgVarRoot(p *packages.Package, e ast.Expr) string {
+	for {
+		switch t := e.(type) {
+		case *ast.Ident:
+			if t.Name == "_" {
+				return ""
+			}
+			obj := p.TypesInfo.Uses[t]
+			if obj == nil {
+				obj = p.TypesInfo.Defs[t]
+			}
+			if v, ok := obj.(*types.Var); ok && v.Pkg() != nil && v.Parent() == v.Pkg().Scope() {
+				return v.Pkg().Name() + "." + v.Name()
+			}
+			return ""
+		case *ast.SelectorExpr:
+			// pkg.Var (another package's variable) or x.f
+			if id, ok := t.X.(*ast.Ident); ok {
+				if _, isPkg := p.TypesInfo.Uses[id].(*types.PkgName); isPkg {
+					if v, ok := p.TypesInfo.Uses[t.Sel].(*types.Var); ok && v.Pkg() != nil && v.Parent() == v.Pkg().Scope() {
+						return v.Pkg().Name() + "." + v.Name()
+					}
+					return ""
+				}
+			}
+			e = t.X
+		case *ast.IndexExpr:
+			e = t.X
+		case *ast.StarExpr:
+			e = t.X
+		case *ast.ParenExpr:
+			e = t.X
+		default:
+			return ""
+		}
+	}
 }
 
 func isFloatFn(p *packages.Package, e *ast.SelectorExpr) bool {
